@@ -218,6 +218,9 @@ func (g *sgen) structType(depth int) *Type {
 		if g.r.Intn(3) == 0 {
 			ef.T = Ptr(Named(sd))
 		}
+		if g.r.Intn(2) == 0 {
+			ef.Tag = fmt.Sprintf("json:\"%s\"", strings.ToLower(nm))
+		}
 		st.Fields = append(st.Fields, ef)
 	}
 	return st
@@ -327,8 +330,12 @@ func (g *sgen) deriveUnder(t *Type, depth int) *Type {
 				}
 				nf.Embedded = base.K == KNamed && base.Decl.Name == f.Name && (ft.K != KPtr || ft.Elem.K == KNamed)
 			}
-			if f.Tag != "" && r.Intn(2) == 0 {
-				nf.Tag = "json:\"other\""
+			if f.Tag != "" {
+				if r.Intn(2) == 0 {
+					nf.Tag = "json:\"other\""
+				} else {
+					nf.Tag = f.Tag
+				}
 			}
 			st.Fields = append(st.Fields, nf)
 		}
